@@ -11,8 +11,9 @@
 //
 // Modes (per scenario):
 //
-//	sched   : steps Begin / MergeEnter / MergeUnblock / MergeAssign / ReadCache / Deliver per update
-//	          "thread"; the interleaving is forced by gating the hook points role.enter /
+//	sched   : steps Begin / Sample / MergeEnter / MergeUnblock / MergeAssign / ReadCache / Deliver per
+//	          update "thread"; the interleaving is forced by gating the hook points role.enter /
+//	          role.sampled (after the read of oldState / oldStatus, before the merge) /
 //	          merge.computed (inside SafeState.merge / SafeStatus.merge, under the role's lock) /
 //	          role.merged per goroutine. A thread released into a merge whose role is locked by a
 //	          thread parked at merge.computed cannot reach a gate: it is recorded as "blocked".
@@ -184,7 +185,8 @@ func pts(tid int) (string, string, string) {
 	return "role.enter#" + s, "role.merged#" + s, "done#" + s
 }
 
-func ptc(tid int) string { return "merge.computed#" + strconv.Itoa(tid) }
+func ptc(tid int) string  { return "merge.computed#" + strconv.Itoa(tid) }
+func pts2(tid int) string { return "role.sampled#" + strconv.Itoa(tid) }
 
 const blockWait = 30 * time.Millisecond
 
@@ -256,9 +258,10 @@ func (r *run) holderOf(tid int) int {
 func (r *run) where(tid int, mayBlock bool) (string, int, string, bool) {
 	pe, pm, pd := pts(tid)
 	pc := ptc(tid)
+	ps := pts2(tid)
 	p := ""
 	if mayBlock {
-		p = r.sched.WaitParkedAny(blockWait, pe, pm, pd, pc)
+		p = r.sched.WaitParkedAny(blockWait, pe, pm, pd, pc, ps)
 		if p == "" && r.holderOf(tid) != 0 {
 			// it cannot get the role's lock: nothing more will happen until the holder goes on
 			r.blocked[tid] = true
@@ -266,7 +269,7 @@ func (r *run) where(tid int, mayBlock bool) (string, int, string, bool) {
 		}
 	}
 	if p == "" {
-		p = r.sched.WaitParkedAny(stepTimeout, pe, pm, pd, pc)
+		p = r.sched.WaitParkedAny(stepTimeout, pe, pm, pd, pc, ps)
 	}
 	if p == "" {
 		return "lost", -1, "-", false
@@ -280,6 +283,10 @@ func (r *run) where(tid int, mayBlock bool) (string, int, string, bool) {
 	if p == pc {
 		// merge.computed carries no role name: it is the role the thread entered
 		return "computed", r.curAt[tid], r.valName(pi), true
+	}
+	if p == ps {
+		// the old value sampled before the merge
+		return "sampled", r.curAt[tid], r.valName(pi), true
 	}
 	at := 0
 	if pi.node != "" {
@@ -357,7 +364,7 @@ func (r *run) doStep(st *Step) bool {
 			r.mu.Unlock()
 		}(st.T, st.Kind, st.V)
 		<-started
-	case "MergeEnter", "Deliver":
+	case "Sample", "Deliver":
 		if !r.alive[st.T] || r.blocked[st.T] || !r.sched.WaitParked(pe, stepTimeout) {
 			r.abandon(st, "thread not parked at role.enter")
 			return false
@@ -370,6 +377,12 @@ func (r *run) doStep(st *Step) bool {
 			return false
 		}
 		r.sched.Release(pe)
+	case "MergeEnter":
+		if !r.alive[st.T] || r.blocked[st.T] || !r.sched.WaitParked(pts2(st.T), stepTimeout) {
+			r.abandon(st, "thread not parked at role.sampled")
+			return false
+		}
+		r.sched.Release(pts2(st.T))
 	case "MergeUnblock":
 		// nothing to release: the thread gets the lock by itself once the holder has gone on
 		if !r.alive[st.T] || !r.blocked[st.T] || r.holderOf(st.T) != 0 {
@@ -390,7 +403,7 @@ func (r *run) doStep(st *Step) bool {
 		for u, b := range r.blocked {
 			if b && u != st.T && r.curAt[u] == r.curAt[st.T] && r.kindOf[u] == r.kindOf[st.T] {
 				pe2, pm2, pd2 := pts(u)
-				r.sched.WaitParkedAny(stepTimeout, pe2, pm2, pd2, ptc(u))
+				r.sched.WaitParkedAny(stepTimeout, pe2, pm2, pd2, ptc(u), pts2(u))
 				// the assigning thread re-reads the role several times on its way to role.merged and may
 				// have to wait for the new holder: its arrival there is not awaited
 				pc, at, carried := "merged", r.curAt[st.T], "-"
@@ -426,12 +439,12 @@ func (r *run) doStep(st *Step) bool {
 		r.kindOf[st.T] = st.Kind
 		r.curAt[st.T] = 0
 	}
-	pc, at, carried, ok := r.where(st.T, st.A == "MergeEnter")
+	pc, at, carried, ok := r.where(st.T, st.A == "MergeEnter" || st.A == "Sample")
 	if pc == "idle" {
 		r.finishThread(st.T)
 	}
 	r.emit(st, pc, at, carried, ok)
-	if ok && st.A == "MergeEnter" && pc != "blocked" && r.holderOf(st.T) != 0 {
+	if ok && (st.A == "MergeEnter" || st.A == "Sample") && pc != "blocked" && r.holderOf(st.T) != 0 {
 		// The thread went through a merge of a role that another update is merging into (parked between
 		// computing and assigning): the role's lock is not held. Drive this thread to completion NOW -
 		// the order the lock exists to exclude - and give up the rest of the schedule.
@@ -461,7 +474,7 @@ func (r *run) nextAction(t int) string {
 		}
 		return ""
 	}
-	switch r.sched.ParkedAmong(pe, pm, ptc(t)) {
+	switch r.sched.ParkedAmong(pe, pm, ptc(t), pts2(t)) {
 	case pe:
 		r.mu.Lock()
 		node := r.info[pe].node
@@ -469,6 +482,8 @@ func (r *run) nextAction(t int) string {
 		if node == "" {
 			return "Deliver"
 		}
+		return "Sample"
+	case pts2(t):
 		// (a merge that would have to wait for a child's lock is not started)
 		return "MergeEnter"
 	case pm:
@@ -587,7 +602,7 @@ func runSched(rec *vtrace.Recorder, sc *Scenario) {
 	}
 	for t := 1; t <= 4; t++ {
 		pe, pm, pd := pts(t)
-		r.sched.Gate(pe, pm, pd, ptc(t))
+		r.sched.Gate(pe, pm, pd, ptc(t), pts2(t))
 	}
 	verifhook.SetHandler(r.handler)
 	for i := range sc.Steps {
@@ -609,7 +624,7 @@ func runSched(rec *vtrace.Recorder, sc *Scenario) {
 				if a == "" || (pass == 0 && a != "MergeAssign" && a != "MergeUnblock") {
 					continue
 				}
-				if a == "MergeEnter" || a == "ReadCache" {
+				if a == "MergeEnter" || a == "ReadCache" || a == "Sample" {
 					// (not while another thread holds a lock this step would have to wait for)
 					busy := false
 					for w := 1; w <= 4; w++ {
@@ -632,7 +647,7 @@ func runSched(rec *vtrace.Recorder, sc *Scenario) {
 			for t := 1; t <= 4; t++ {
 				if r.alive[t] && !r.blocked[t] {
 					pe, pm, pd := pts(t)
-					if r.sched.WaitParkedAny(stepTimeout, pe, pm, pd, ptc(t)) != "" {
+					if r.sched.WaitParkedAny(stepTimeout, pe, pm, pd, ptc(t), pts2(t)) != "" {
 						any = true
 						break
 					}
